@@ -295,6 +295,17 @@ pub fn run(ctx: &mut Ctx) {
                 `X: TheTrait` and `Impl<X>: TheTrait` at run time for a family of types (full, one per missing bound, all-pool, !Sync, Sync+!Send) and compares with the spec; \
                 non-trivial = >=2 declared bounds, a split declaration, or module fns with different bounds (every case has probes expected true and probes expected false); distinct = distinct program text"
         .into();
+    {
+        let head = "#![allow(warnings)]\npub trait Dep<'a> { fn d(&self) -> &'a u8; }\npub fn run() -> Vec<String> { vec![] }\n";
+        let item = "fn the_fn<'a, D: Dep<'a>>(deps: &D, x: &'a str) -> &'a u8 { deps.d() }";
+        if !super::common::probe_open_findings(
+            ctx,
+            "C04",
+            &[("deps-bound-names-a-lifetime-of-the-fn", format!("{head}#[::entrait::entrait(TheTrait)]\n{item}\n"), format!("{head}{item}\n"), &["E0261"])],
+        ) {
+            return;
+        }
+    }
     ctx.assumptions.push("`'static` cannot be probed at run time (trait selection ignores lifetimes): it is a compile probe on the first 120 (thorough: 600) cases per feature setting - `Impl<XBorrowed<'a>>: TheTrait` must be rejected, the `'static` twin must compile; mock derivations stay un-exported (inert) here, C10/C11 observe the mock type".into());
     let n = ctx.n(1500, 12000) as usize;
     for feature_unimock in [false, true] {
